@@ -822,7 +822,11 @@ func (fc *FnCtx) load(st *State, l loc) Val {
 		st.objs[l.obj] = setPath(fc, root, l.path, v, "o")
 		return v
 	case 2:
-		return fc.readElem(st, l.slice, l.idx)
+		v := fc.readElem(st, l.slice, l.idx)
+		if len(l.path) > 0 {
+			return getPath(fc, v, l.path, "cell")
+		}
+		return v
 	}
 	fc.havocs++
 	return fc.freshVal(l.typ, "unk")
@@ -847,6 +851,11 @@ func (fc *FnCtx) storeLoc(st *State, l loc, v Val) {
 		}
 		st.objs[l.obj] = setPath(fc, root, l.path, v, "o")
 	case 2:
+		if len(l.path) > 0 {
+			// one field of a cell-encoded element: rewrite the whole cell
+			cur := fc.readElem(st, l.slice, l.idx)
+			v = setPath(fc, cur, l.path, v, "cell")
+		}
 		fc.writeElem(st, l.slice, l.idx, v)
 	default:
 		// unknown location: in lenient mode the write is dropped (the location reads back as unknown)
